@@ -352,6 +352,9 @@ func init() {
 			runs := ircStepRuns("verifHarness_C15_step", tier, false)
 			p := map[string]int{"data": p4(tier, 6, 10), "authlen": 3}
 			runs = append(runs, apiRun("post-sanitiser", "verifHarness_C15_post", p), apiRun("delete-sanitiser", "verifHarness_C15_delete", p))
+			// a body longer than one IRC line (512 bytes): the cut may not depend on where the separator sits
+			long := map[string]int{"data": p4(tier, 3, 5), "filler": p4(tier, 510, 2040), "authlen": 3}
+			runs = append(runs, apiRun("post-sanitiser-long", "verifHarness_C15_post", long), apiRun("delete-sanitiser-long", "verifHarness_C15_delete", long))
 			return runs
 		},
 		Assumptions: append(append([]string{}, ircAssumptions...), "JSON decoding yields an arbitrary string for Data/Quitmessage (any bytes, bounded length)", "irc.ParseMessage introduces no byte that is not in its input"),
@@ -363,6 +366,10 @@ func init() {
 		Runs: func(tier string) []HarnessRun {
 			runs := ircStepRuns("verifHarness_C10_step", tier, false)
 			runs = append(runs, apiRun("post-retry", "verifHarness_C10_post", map[string]int{"data": 4, "authlen": 3}))
+			runs = append(runs, HarnessRun{Name: "marked", Pkg: "", PkgName: "main", Files: []string{"main/c07.go"}, SymFiles: []string{"main/tmp_sym.go"}, NatFiles: []string{"main/tmp_native.go"},
+				Entry: "verifHarness_C10_marked", Unwind: 8,
+				Redirect:      map[string]string{"(*" + repoMod + ".FSM).applyRobustMessage": "verifStub_applyRobustMessage"},
+				NativePatches: []NativePatch{{Module: "github.com/stapelberg/glog", File: "glog.go", Old: "os.Exit(255)", New: "panic(\"verif-process-exit\")"}}})
 			return runs
 		},
 		Assumptions: append(append([]string{}, ircAssumptions...), "raft is replaced by a recording stub: a proposal is observed, not committed", "persistence of the marker across snapshot/restore is C03's sessions obligation; the MessageOfDeath case is C07's replay half"),
@@ -373,7 +380,13 @@ func init() {
 		ID: "C17",
 		Runs: func(tier string) []HarnessRun {
 			runs := ircStepRuns("verifHarness_C17_step", tier, false)
-			runs = append(runs, ircRun("lookup", "verifHarness_C17_lookup", map[string]int{"S": 2, "C": 1, "L": 3}), ircRun("expiry", "verifHarness_C17_expire", map[string]int{"S": p4(tier, 2, 3), "C": 1, "L": 3, "link": 1, "P": 1}))
+			runs = append(runs, ircRun("lookup", "verifHarness_C17_lookup", map[string]int{"S": 2, "C": 1, "L": 3}), func() HarnessRun {
+				r := ircRun("expiry", "verifHarness_C17_expire", map[string]int{"S": p4(tier, 2, 3), "C": 1, "L": 3, "link": 1, "P": 1})
+				r.NativeClock = true
+				return r
+			}())
+			runs = append(runs, HarnessRun{Name: "api-mapping", Pkg: "internal/api", PkgName: "api", Files: []string{"apipkg/common.go", "apipkg/c11.go"}, APIs: []string{"http"},
+				Entry: "verifHarness_C17_api", Params: map[string]int{"authlen": 3}, Unwind: 10, Redirect: apiRedirects(), NoReplay: true})
 			return runs
 		},
 		Assumptions: append(append([]string{}, ircAssumptions...), "every session id is at most the id of the newest applied entry (ids are raft indexes)", "time.Now is an arbitrary instant for the expiry sweep"),
